@@ -128,6 +128,9 @@ PROPS["C05"] = dict(
 # unit "logs": style S2, logs.rs + cursor.rs mounted, BTreeMap -> model
 # ------------------------------------------------------------------------------------------------
 STRIP_TESTS = (r"\n#\[cfg\(test\)\]\nmod tests \{.*\Z", "\n", 1, "S")
+# every `use std::collections::…;` line of the file under test is redirected to the contract models
+# (one or more such lines, whatever they import: tolerant to harmless edits of the import list)
+USE_MODELS = (r"^use std::collections::", "use crate::verif_models::", "+")
 COLLECTIONS = ("shared", "models/collections.rs", "src/collections.rs")
 _rows = [dict(name="c06::row_%02d" % i, prop="C06", tier="thorough", timeout=1500,
               encodes="logs::compare", bounds="local shape %d x all 16 remote shapes, 2 authors x 2 logs, all u32 heights" % i) for i in range(16)]
@@ -143,7 +146,7 @@ UNITS["logs"] = dict(
     name="logs",
     stage=[("repo",), ("crate", "harness/logs"), ("lock",), SYM, COLLECTIONS,
            ("mount", "p2panda-core/src/logs.rs", "src/staged/logs.rs",
-            [(r"^use std::collections::BTreeMap;$", "use crate::verif_models::BTreeMap;", 1), STRIP_TESTS]),
+            [USE_MODELS, STRIP_TESTS]),
            ("mount", "p2panda-core/src/cursor.rs", "src/staged/cursor.rs", [STRIP_TESTS])],
     repo_paths=["src/staged/"],
     functions=[
@@ -199,7 +202,7 @@ UNITS["dedup"] = dict(
     name="dedup",
     stage=[("repo",), ("crate", "harness/dedup"), ("lock",), SYM, COLLECTIONS,
            ("mount", "p2panda-sync/src/dedup.rs", "src/staged/dedup.rs",
-            [(r"^use std::collections::\{HashSet, VecDeque\};$", "use crate::verif_models::{HashSet, VecDeque};", 1), STRIP_TESTS])],
+            [USE_MODELS, STRIP_TESTS])],
     repo_paths=["src/staged/"],
     functions=[("p2panda-sync/src/dedup.rs", "DeduplicationBuffer::new", r"pub fn new\(capacity: usize\)"),
                ("p2panda-sync/src/dedup.rs", "DeduplicationBuffer::insert", r"pub fn insert\(&mut self, item: T\)"),
@@ -261,7 +264,7 @@ UNITS["auth"] = dict(
     name="auth",
     stage=[("repo",), ("crate", "harness/auth"), ("lock",), SYM, COLLECTIONS,
            ("mount", "p2panda-auth/src/group/crdt/state.rs", "src/staged/state.rs",
-            [(r"^use std::collections::\{HashMap, HashSet\};$", "use crate::verif_models::{HashMap, HashSet};", 1), INNER_DOCS, STRIP_TESTS]),
+            [USE_MODELS, INNER_DOCS, STRIP_TESTS]),
            ("mount", "p2panda-auth/src/access.rs", "src/staged/access.rs", [INNER_DOCS, STRIP_TESTS])],
     repo_paths=["src/staged/"],
     functions=[("p2panda-auth/src/group/crdt/state.rs", "state::merge", r"pub fn merge<"),
@@ -328,12 +331,11 @@ UNITS["enc"] = dict(
            ("rewrite", "p2panda-encryption/Cargo.toml", [(r"^\[features\]$", "[features]\nmodel_serde = []", 1)]),
            ("append", _ENC + "lib.rs", "harness/inject/enc_lib.rs"),
            ("rewrite", _ENC + "crypto/secret.rs", [(r", ZeroizeOnDrop\)\]", ")]", 1), (r"^use zeroize::ZeroizeOnDrop;$", "", 1)]),
-           ("rewrite", _ENC + "message_scheme/ratchet.rs", [(r"^use std::collections::VecDeque;$", "use crate::verif_models::VecDeque;", 1)]),
+           ("rewrite", _ENC + "message_scheme/ratchet.rs", [USE_MODELS]),
            ("append", _ENC + "message_scheme/ratchet.rs", "harness/inject/enc_ratchet.rs"),
-           ("rewrite", _ENC + "data_scheme/group_secret.rs", [(r"^use std::collections::HashMap;$", "use crate::verif_models::HashMap;", 1),
-                                                              (r"^use std::collections::hash_map::\{IntoIter, Iter, Keys, Values\};$", "use crate::verif_models::hash_map::{IntoIter, Iter, Keys, Values};", 1)]),
+           ("rewrite", _ENC + "data_scheme/group_secret.rs", [USE_MODELS]),
            ("append", _ENC + "data_scheme/group_secret.rs", "harness/inject/enc_group_secret.rs"),
-           ("rewrite", _ENC + "key_registry.rs", [(r"^use std::collections::HashMap;$", "use crate::verif_models::HashMap;", 1)]),
+           ("rewrite", _ENC + "key_registry.rs", [USE_MODELS]),
            ("append", _ENC + "key_registry.rs", "harness/inject/enc_key_registry.rs"),
            ],
     repo_paths=["p2panda-encryption/src/", "src/"],
@@ -370,6 +372,8 @@ UNITS["enc"] = dict(
              encodes="find_latest via SecretBundle::insert, SecretBundleState::latest", bounds="1..3 secrets, all u64 timestamps, distinct ids, all 6 insertion orders, every HashMap iteration order"),
         dict(name="data_scheme::group_secret::verif_proofs::latest_after_merge_from_secrets_and_remove", prop="C36", tier="thorough", timeout=1800,
              encodes="SecretBundle::{extend, from_secrets, remove}, find_latest", bounds="3 secrets, all u64 timestamps, both merge orders"),
+        dict(name="data_scheme::group_secret::verif_proofs::latest_after_merging_two_bundles", prop="C36", timeout=900,
+             encodes="SecretBundle::extend, find_latest", bounds="two single-secret bundles, all u64 timestamps, both merge orders"),
         dict(name="data_scheme::group_secret::verif_proofs::generate_is_newer", prop="C36", timeout=900,
              encodes="SecretBundle::generate", bounds="bundle of 0..2 secrets with timestamps < u64::MAX, every wall-clock second"),
         dict(name="data_scheme::group_secret::verif_proofs::generate_with_maximal_latest_timestamp", prop="C36", timeout=600,
@@ -444,7 +448,7 @@ UNITS["tasks"] = dict(
     name="tasks",
     stage=[("repo",), ("crate", "harness/tasks"), ("lock_none",), SYM, COLLECTIONS,
            ("mount", "p2panda/src/processor/tasks.rs", "src/staged/tasks.rs",
-            [(r"^use std::collections::HashMap;$", "use crate::verif_models::HashMap;", 1), INNER_DOCS, STRIP_TESTS])],
+            [USE_MODELS, INNER_DOCS, STRIP_TESTS])],
     repo_paths=["src/staged/"],
     native_note="unit replay: the same staged unit and the tokio contract model compiled natively and run with the solver's schedule",
     mem_gb=30,
@@ -546,7 +550,7 @@ UNITS["node"] = dict(
            ("shared_repo", "models/sym.rs", _P2 + "sym.rs"),
            ("shared_repo", "models/collections.rs", _P2 + "verif_models.rs"),
            ("append", _P2 + "lib.rs", "harness/inject/p2panda_lib.rs"),
-           ("rewrite", _P2 + "streams/sync_metrics.rs", [(r"^use std::collections::\{HashMap, HashSet\};$", "use crate::verif_models::{HashMap, HashSet};", 1)]),
+           ("rewrite", _P2 + "streams/sync_metrics.rs", [USE_MODELS]),
            ("append", _P2 + "streams/sync_metrics.rs", "harness/inject/p2panda_sync_metrics.rs")],
     repo_paths=["p2panda/src/", "src/"],
     mem_gb=20,
